@@ -292,7 +292,7 @@ Lemma wf_field_inv E i fl f : wf_field E i fl f = true ->
   items_nonempty E (f2_w f) = true /\ codec_ok (f2_w f) = true /\
   (forall t, f2_tag f = Some t -> fl = true /\ 0 <= t < 2 ^ 31).
 Proof.
-  unfold wf_field. intros H.
+  unfold wf_field. intros H. apply andb_true_iff in H. destruct H as [H _]. unfold wf_field0 in H.
   repeat (apply andb_true_iff in H; let H' := fresh "H" in destruct H as [H H']).
   repeat split; try assumption; destruct (f2_tag f) as [t'|]; try discriminate;
     injection H5 as ->;
